@@ -1,12 +1,13 @@
 import NbioVerif.Lemmas.WsCbInv
+import NbioVerif.Properties.C05
 import NbioVerif.Lemmas.SendQInv
 /-!
 # C14 — WebSocket callbacks ordered and exactly once; concurrent writes stay whole
 
 Part A (`WsCb`): the callback log of a connection, for **every** interleaving of incoming messages, job-queue
 drainer steps and the close, is a prefix of `open · msg₀ … msgₖ₋₁ · close` and equals it once the drainer is idle.
-The model is the composition of the receive steps with the connection's job queue, which is used as the `JobQ`
-transition system itself (so FIFO / exactly once / single drainer are JobQ's theorems, C05).
+The model is the composition of the receive steps with the connection's job queue, which is **C05's `ExecQ`** itself
+(`c14_queue_is_execq`), so one-at-a-time / FIFO / exactly once are C05's theorems, cited here.
 
 Part B (`SendQ`): for every interleaving of concurrent `WriteMessage`/`WriteFrame` callers, the send-queue drainer,
 conn write failures and `CloseAndClean`, in direct and in queued mode: what the conn has accepted is a prefix of the
@@ -21,68 +22,147 @@ an environment that accepts a frame whole or fails.
 
 /-! ## Part A — callbacks -/
 namespace WsCb
+open ExecQ (Ev serial runningJobs)
 
-/-- **Callback order.** For every interleaving: the callbacks run so far are a prefix of
-    `open · msg₀ · msg₁ · … · close` (messages in wire order, `expected`), nothing is skipped, and once the drainer is
-    idle every accepted job has run. While the connection is open no message is dropped (`accMsgs = wireMsgs`). -/
+/-- **The job queue of this model is C05's `ExecQ`.** Every queue state reachable here is the state of an `ExecQ` run
+    (instance `conn`), so C05's theorems about `ExecQ.run .conn ExecQ.init bs` apply to it — the theorems below cite
+    `c05_one_at_a_time` and `c05_fifo_exactly_once` through this bridge. -/
+theorem c14_queue_is_execq (as : List Act) : ∃ bs, (run init as).q = ExecQ.run .conn ExecQ.init bs :=
+  run_q_reachable as
+
+/-- **Callback order.** For every interleaving of message arrival, drainer steps and the close: the jobs that have
+    completed are a prefix of `open · msg₀ · msg₁ · … · close` (messages in wire order), nothing is skipped, and once
+    no drainer is left every accepted job has run. While the connection is open no message is dropped. -/
 theorem c14_callback_order (as : List Act) :
     let s := run init as
-    s.q.ran <+: expected s ∧ (s.q.drainer = none → s.q.ran = expected s) ∧
+    s.q.done <+: expected s ∧ (s.q.drs = [] → s.q.done = expected s) ∧
       (s.q.closed = false → s.accMsgs = s.wireMsgs) ∧ s.accMsgs ≤ s.wireMsgs := by
   intro s
   have hi : Inv s := inv_run as inv_init
-  have hj := hi.jq
-  refine ⟨?_, ?_, hi.openAll, hi.le⟩
-  · rw [← hi.acc]
-    cases hd : s.q.drainer with
-    | none => rw [(hj.dr_none hd).2]; exact List.prefix_refl _
-    | some b =>
-      cases b with
-      | false => exact ⟨_, (hj.dr_f hd).2⟩
-      | true => exact ⟨_, (hj.dr_t hd).2⟩
-  · intro hd; rw [← hi.acc]; exact (hj.dr_none hd).2
+  obtain ⟨bs, hb⟩ := c14_queue_is_execq as
+  have h5 := ExecQ.c05_fifo_exactly_once .conn bs
+  simp only at h5
+  rw [← hb] at h5
+  rw [← hi.acc]
+  exact ⟨h5.1, h5.2.1, hi.openAll, hi.le⟩
 
-/-- **Exactly once.** No callback runs twice. -/
-theorem c14_callbacks_exactly_once (as : List Act) : (run init as).q.ran.Nodup := by
+/-- **One at a time — with starts and ends.** The start/end log of the callbacks is strictly serial: every callback
+    has *ended* before the next one *starts* (at most one open start, whose job is the next one of the prescribed
+    sequence); there is never more than one drainer. (C05's `c05_one_at_a_time` on this queue, plus the order.) -/
+theorem c14_one_at_a_time (as : List Act) :
+    let s := run init as
+    s.q.drs.length ≤ 1 ∧ (runningJobs s.q).length ≤ 1 ∧
+      ∃ cur, s.q.log = serial s.q.done ++ cur ∧
+        (cur = [] ∨ ∃ j, cur = [.s j] ∧ runningJobs s.q = [j] ∧ (s.q.done ++ [j]) <+: expected s) := by
+  intro s
+  have hi : Inv s := inv_run as inv_init
+  obtain ⟨bs, hb⟩ := c14_queue_is_execq as
+  have h5 := ExecQ.c05_one_at_a_time .conn bs
+  simp only at h5
+  rw [← hb] at h5
+  obtain ⟨h1, h2, cur, hlog, hcur⟩ := h5
+  refine ⟨h1, h2, cur, hlog, ?_⟩
+  rcases hcur with hc | ⟨j, hc, hr⟩
+  · exact Or.inl hc
+  · refine Or.inr ⟨j, hc, hr, ?_⟩
+    -- the running job is the one right behind `done` in `acc`
+    rw [← hi.acc]
+    rcases hi.jq.shape with ⟨hd, _⟩ | ⟨x, hd, di⟩
+    · have hd' : (run init as).q.drs = [] := hd
+      simp [runningJobs, hd'] at hr
+    · rw [ExecQ.runningJobs_one _ x hd] at hr
+      split at hr
+      · rename_i hrun
+        simp at hr; subst hr
+        obtain ⟨p, _, hget, hacc, _⟩ := di.runs hrun
+        rw [← hacc, ExecQ.drop_succ_of_get hget]
+        exact ⟨s.q.list.drop (p + 1), by simp⟩
+      · simp at hr
+
+/-- **Exactly once.** No callback job completes twice. -/
+theorem c14_callbacks_exactly_once (as : List Act) : (run init as).q.done.Nodup := by
   obtain ⟨⟨t, ht⟩, _⟩ := c14_callback_order as
   have := expected_nodup (run init as)
   rw [← ht] at this
   exact (List.nodup_append.mp this).1
 
-/-- **Open first.** The first callback of a connection is the open callback: no message or close callback runs
-    before the upgrade job (which calls the open handler and, being a queue job, completes before the next one). -/
+/-- **Open first.** The first job to complete is the upgrade job (which calls the open handler). -/
 theorem c14_open_first (as : List Act) :
     let s := run init as
-    s.q.ran ≠ [] → s.q.ran.head? = some jobOpen := by
+    s.q.done ≠ [] → s.q.done.head? = some jobOpen := by
   intro s hne
   obtain ⟨⟨t, ht⟩, _⟩ := c14_callback_order as
   have hi : Inv s := inv_run as inv_init
   cases hu : s.upgraded with
   | false =>
-    obtain ⟨ha, hn⟩ := hi.up hu
-    have : expected s = [] := by simp [expected, hu, ha, hn]
-    rw [this] at ht
+    rw [expected_nil_of_not_upgraded hi hu] at ht
     exact absurd (List.append_eq_nil_iff.mp ht).1 hne
   | true =>
     have he : expected s = jobOpen :: ((List.range s.accMsgs).map jobMsg ++ (if s.notified then [jobClose] else [])) := by
       simp [expected, hu]
     rw [he] at ht
-    cases hr : s.q.ran with
+    cases hr : s.q.done with
     | nil => exact absurd hr hne
     | cons a r =>
       rw [hr] at ht
       simp at ht
       simp [ht.1]
 
-/-- **Close exactly once, and last.** Once the close callback has run, the log is complete: it is exactly
-    `open · accepted messages · close` — nothing runs after the close callback, and it ran once. -/
+theorem mem_serial_start {l : List Nat} {j : Nat} (h : Ev.s j ∈ serial l) : j ∈ l := by
+  induction l with
+  | nil => simp [serial] at h
+  | cons x xs ih =>
+    simp only [serial, List.mem_cons] at h
+    rcases h with h | h | h
+    · cases h; exact List.mem_cons_self ..
+    · cases h
+    · exact List.mem_cons_of_mem _ (ih h)
+
+/-- **The open callback has completed before any message callback starts.** If the log shows the start of a message
+    callback, the upgrade job is among the completed jobs — and the log being serial (`c14_one_at_a_time`), its end
+    event precedes that start. -/
+theorem c14_open_completes_before_messages (as : List Act) (i : Nat) :
+    let s := run init as
+    Ev.s (jobMsg i) ∈ s.q.log → jobOpen ∈ s.q.done := by
+  intro s hm
+  have hi : Inv s := inv_run as inv_init
+  obtain ⟨_, _, cur, hlog, hcur⟩ := c14_one_at_a_time as
+  have hfirst := c14_open_first as
+  have hdone : s.q.done ≠ [] → jobOpen ∈ s.q.done := by
+    intro hne
+    have := hfirst hne
+    cases hd : s.q.done with
+    | nil => exact absurd hd hne
+    | cons a r => rw [hd] at this; simp at this; subst this; exact List.mem_cons_self ..
+  rw [hlog] at hm
+  rcases List.mem_append.mp hm with hm | hm
+  · exact hdone (by intro he; rw [he] at hm; simp [serial] at hm)
+  · rcases hcur with hc | ⟨j, hc, _, hpre⟩
+    · rw [hc] at hm; cases hm
+    · rw [hc] at hm
+      simp at hm; subst hm
+      by_cases hne : s.q.done = []
+      · -- the message job would be the first job of the prescribed sequence: impossible
+        exfalso
+        rw [hne] at hpre
+        obtain ⟨t, ht⟩ := hpre
+        cases hu : s.upgraded with
+        | false => rw [expected_nil_of_not_upgraded hi hu] at ht; simp at ht
+        | true =>
+          have he : expected s = jobOpen :: ((List.range s.accMsgs).map jobMsg ++ (if s.notified then [jobClose] else [])) := by
+            simp [expected, hu]
+          rw [he] at ht
+          simp [jobMsg, jobOpen] at ht
+      · exact hdone hne
+
+/-- **Close exactly once, and last.** Once the close job has completed, the sequence is complete: it is exactly
+    `open · accepted messages · close` — nothing completes after it, and it completed once. -/
 theorem c14_close_once_last (as : List Act) :
     let s := run init as
-    jobClose ∈ s.q.ran → s.q.ran = expected s ∧ s.q.ran.getLast? = some jobClose ∧ s.q.ran.count jobClose = 1 := by
+    jobClose ∈ s.q.done → s.q.done = expected s ∧ s.q.done.getLast? = some jobClose ∧ s.q.done.count jobClose = 1 := by
   intro s hm
   obtain ⟨hp, _⟩ := c14_callback_order as
   have hnd := expected_nodup s
-  -- close can only be the last element of `expected`
   have hn : s.notified = true := by
     cases hq : s.notified with
     | true => rfl
@@ -102,14 +182,14 @@ theorem c14_close_once_last (as : List Act) :
     have := (List.nodup_append.mp hnd).2.2
     intro hin
     exact this jobClose hin jobClose (by simp) rfl
-  have hlen : s.q.ran = (expected s).take s.q.ran.length := List.prefix_iff_eq_take.mp hp
-  have hfull : s.q.ran = expected s := by
-    by_cases hle : s.q.ran.length ≤ A.length
+  have hlen : s.q.done = (expected s).take s.q.done.length := List.prefix_iff_eq_take.mp hp
+  have hfull : s.q.done = expected s := by
+    by_cases hle : s.q.done.length ≤ A.length
     · exfalso
       rw [he, List.take_append_of_le_length hle] at hlen
-      have : jobClose ∈ A.take s.q.ran.length := by rw [← hlen]; exact hm
+      have : jobClose ∈ A.take s.q.done.length := by rw [← hlen]; exact hm
       exact hcA (List.mem_of_mem_take this)
-    · have hlt : (expected s).length ≤ s.q.ran.length := by
+    · have hlt : (expected s).length ≤ s.q.done.length := by
         rw [he]; simp; omega
       rw [List.take_of_length_le hlt] at hlen
       exact hlen
@@ -119,37 +199,52 @@ theorem c14_close_once_last (as : List Act) :
     have : A.count jobClose = 0 := List.count_eq_zero_of_not_mem hcA
     simp [this]
 
-/-- **One at a time.** Callbacks are run by the job queue's single drainer: a drainer exists exactly while jobs are
-    pending (so two callbacks of one connection never overlap). -/
-theorem c14_single_drainer (as : List Act) :
+/-- **A failed upgrade produces no WebSocket callback at all.** If the connection was already closed when the upgrade
+    job was entered (the 101 response cannot be written, `Upgrade` returns the error): no job of this connection is a
+    WebSocket callback — no open, no message (none was even parsed), no ws close — and otherwise every completed job
+    is one. -/
+theorem c14_failed_upgrade_no_callbacks (as : List Act) :
     let s := run init as
-    (s.q.drainer = none ↔ s.q.list = []) := by
+    (s.established = some false → callbacks s = [] ∧ s.q.closed = true ∧ s.wireMsgs = 0) ∧
+    (s.established ≠ some false → callbacks s = s.q.done) := by
   intro s
-  have hj := (inv_run (s := init) as inv_init).jq
+  have hi : Inv s := inv_run as inv_init
   constructor
-  · intro h; exact (hj.dr_none h).1
-  · intro h
-    cases hd : s.q.drainer with
-    | none => rfl
-    | some b =>
-      cases b with
-      | false => have := (hj.dr_f hd).1; rw [h] at this; simp at this
-      | true => have := (hj.dr_t hd).1; rw [h] at this; simp at this
+  · intro he
+    refine ⟨?_, hi.estF he, hi.noEst (by rw [he]; simp)⟩
+    simp [callbacks, isCallback, he]
+  · intro he
+    have hb : (s.established != some false) = true := by simpa using he
+    simp only [callbacks]
+    apply List.filter_eq_self.mpr
+    intro a _
+    simp only [isCallback, hb]
 
 /-- **Defect on the transferred path.** `UpgradeAndTransferConnToPoller` calls the open handler outside the conn's
     job queue, after the conn has been registered with the poller and the 101 response has been written: a message
     callback can complete before the open callback does (and, not being serialised with it, overlap it). The
-    full-strength "open first on all upgrade paths" therefore fails there; `c14_open_first` is the part that holds
-    (every path on which `Upgrade` runs inside the request's job or before the read loop starts). -/
+    full-strength "open first on all upgrade paths" therefore fails there; `c14_open_first` /
+    `c14_open_completes_before_messages` are the part that holds (every path on which `Upgrade` runs inside the
+    request's job or before the read loop starts). -/
 theorem c14_transfer_open_race_counterexample :
-    let s := trun tinit [.register, .recv, .run, .next, .openCb]
+    let s := trun tinit [.register, .recv, .q (.spawn 0 false), .q (.start 0), .q (.finish 0 false), .openCb]
     s.log = [jobMsg 0, jobOpen] ∧ s.log.head? ≠ some jobOpen := by
   decide
 
 /-- non-vacuity: two messages, a third arriving after the close flag (dropped), everything drained -/
 example :
-    let s := run init [.upgrade, .recv, .run, .recv, .next, .flip, .recv, .run, .notify, .next, .run, .next, .run, .next]
-    s.q.ran = [jobOpen, jobMsg 0, jobMsg 1, jobClose] ∧ s.q.drainer = none ∧ s.wireMsgs = 3 ∧ s.accMsgs = 2 := by
+    let s := run init [.upgrade, .q (.spawn 0 false), .q (.start 0), .recv, .q (.finish 0 false), .recv,
+      .q (.next 0 false), .flip, .recv, .q (.start 0), .notify, .q (.finish 0 false), .q (.next 0 false), .q (.start 0),
+      .q (.finish 0 false), .q (.next 0 false), .q (.start 0), .q (.finish 0 false), .q (.next 0 false)]
+    s.q.done = [jobOpen, jobMsg 0, jobMsg 1, jobClose] ∧ s.q.drs = [] ∧ s.wireMsgs = 3 ∧ s.accMsgs = 2 ∧
+      s.established = some true := by
+  decide
+
+/-- non-vacuity: the connection is closed before the upgrade job is entered — no callbacks -/
+example :
+    let s := run init [.upgrade, .flip, .notify, .q (.spawn 0 false), .q (.start 0), .q (.finish 0 false),
+      .q (.next 0 false), .q (.start 0), .q (.finish 0 false), .q (.next 0 false)]
+    s.established = some false ∧ callbacks s = [] ∧ s.q.done = [jobOpen, jobClose] := by
   decide
 
 end WsCb
